@@ -16,3 +16,21 @@ fn is_float(v: &Variant, x: f64) -> bool { matches!(v, Variant::Float(f) if *f =
 fn sv(x: &str) -> String { String::from(x) }
 fn is_str(v: &Variant, x: &str) -> bool { matches!(v, Variant::Str(s) if s == x) }
 fn is_empty_value(v: &Variant) -> bool { matches!(v, Variant::Empty(_)) || is_str(v, "") }
+
+// ---- shim calendar values for the YEAR / MONTH / DAY / DOW arms: parse_datetime answers with the date the harness states ----
+#[derive(Clone, Copy)] pub struct SWeekday(pub u32);   // days since Sunday, 0..6
+impl SWeekday {
+    pub fn number_from_sunday(&self) -> u32 { self.0 + 1 }
+    pub fn num_days_from_sunday(&self) -> u32 { self.0 }
+    pub fn number_from_monday(&self) -> u32 { (self.0 + 6) % 7 + 1 }
+    pub fn num_days_from_monday(&self) -> u32 { (self.0 + 6) % 7 }
+}
+#[derive(Clone, Copy)] pub struct SDate { pub y: i32, pub m: u32, pub d: u32, pub wd: u32 }
+impl SDate {
+    pub fn year(&self) -> i32 { self.y }
+    pub fn month(&self) -> u32 { self.m }
+    pub fn day(&self) -> u32 { self.d }
+    pub fn weekday(&self) -> SWeekday { SWeekday(self.wd) }
+}
+pub static mut PARSED: Option<SDate> = None;
+pub fn parse_datetime(_s: &str) -> Result<(SDate, SDate), String> { unsafe { match PARSED { Some(d) => Ok((d, d)), None => Err(String::new()) } } }
